@@ -42,7 +42,8 @@ def pool():
     ]
 
 
-ATTRS = [None, {'stroke': '#f00'}, {'stroke-width': '2', 'fill': 'none', 'id': 'p1'}, {'d': 'M 9 9 L 8 7', 'stroke': '#0f0'}]
+ATTRS = [None, {'stroke': '#f00'}, {'stroke-width': '2', 'fill': 'none', 'id': 'p1'}, {'d': 'M 9 9 L 8 7', 'stroke': '#0f0'},
+         {'xml:lang': 'en', 'xml:space': 'preserve', 'stroke': '#00f'}]
 SVGATTRS = [None, {'viewBox': '0 0 100 100', 'width': '200px', 'height': '100px'}, {'height': '77mm'}, {'width': '30cm'}]
 
 
@@ -68,7 +69,12 @@ def attrs_contained(supplied, returned):
     for k, v in supplied.items():
         if k == 'd':
             continue        # the path given to the writer is the element's geometry, not a stale 'd' attribute
-        if str(returned.get(k)) != str(v):
+        got = returned.get(k)
+        if got is None and ':' in k:
+            # ElementTree-based readers report namespaced attribute names in Clark notation
+            ns = {'xml': 'http://www.w3.org/XML/1998/namespace', 'xlink': 'http://www.w3.org/1999/xlink'}.get(k.split(':')[0])
+            got = returned.get('{%s}%s' % (ns, k.split(':')[1]))
+        if str(got) != str(v):
             return False
     return True
 
@@ -150,7 +156,7 @@ def read_back(fn, paths, attributes, svgat, case, sig, acc):
 DOC_OPS = [
     ['add_path', 'Path', 0, 0, None], ['add_path', 'Path', 2, 1, None], ['add_path', 'segment', 3, 0, None],
     ['add_path', 'dstring', 4, 2, None], ['add_path', 'Path', 1, 2, ['ga']], ['add_path', 'Path', 4, 0, ['ga', 'gb']],
-    ['add_path', 'Path', 3, 3, None],
+    ['add_path', 'Path', 3, 3, None], ['add_path', 'Path', 0, 4, None],
     ['add_group', ['gc']], ['save'], ['save_reload'],
 ]
 
